@@ -65,10 +65,19 @@ func validateMintDenom(i interface{}) error {
 }
 
 func validateRewardCoefficient(i interface{}) error {
-	_, ok := i.(sdk.Dec)
+	v, ok := i.(sdk.Dec)
 
 	if !ok {
 		return fmt.Errorf("invalid parameter type: %T", i)
+	}
+
+	if v.IsNil() {
+		return nil
+	}
+
+	// percent per year; keeps bonded x coefficient far inside the 315-bit range of sdk.Dec
+	if v.Abs().GT(sdk.NewDec(1_000_000_000_000_000_000)) {
+		return fmt.Errorf("reward coefficient out of range: %s", v)
 	}
 
 	return nil
